@@ -1,6 +1,6 @@
 (* C08 — Visual order of the runs of a line follows the Unicode Bidi Algorithm (rule L2).  Property theorems only. *)
 From Coq Require Import Permutation.
-From TV Require Import Lib.GoNum Model.BidiOrder Spec.L2 Proofs.BidiOrder.
+From TV Require Import Lib.GoNum Model.BidiOrder Spec.L2 Proofs.BidiOrder Proofs.L2Levels.
 
 (* swapVisualOrder reverses the visual indices of the subline (any length) *)
 Theorem swap_visual_order_reverses : forall v, swap_visual_order v = rev v.
@@ -87,6 +87,17 @@ Theorem post_process_glyphs : forall w line done,
 Proof. exact pp_glyphs_lemma. Qed.
 Print Assumptions post_process_glyphs.
 
+(* why l2_one_nesting cannot be extended to deeper nesting by ANY repair confined to computeBidiOrdering (finding F5):
+   the function sees the paragraph direction and each run's Direction, i.e. the parities of the levels; whatever it
+   computes from them (`order`), some line of five runs with levels 0..2 in a left-to-right paragraph is not ordered as
+   L2 prescribes.  The levels themselves are not available upstream either: golang.org/x/text/unicode/bidi, used by
+   splitByBidi, returns runs with a direction only. *)
+Theorem l2_needs_levels : forall order : bool -> list bool -> list Z,
+  exists levels, levels_valid 0 levels = true /\ length levels = 5%nat /\ Forall (fun l => (l <= 2)%nat) levels
+    /\ follows_l2 levels (order false (map Nat.odd levels)) = false.
+Proof. exact l2_needs_levels_lemma. Qed.
+Print Assumptions l2_needs_levels.
+
 (* ---- non-vacuity ---------------------------------------------------------------------------- *)
 Definition ex_run (d : Z) (gs : list glyph) : run := mkRun d 7 0 0 1 gs.
 (* RTL paragraph, levels 1 2 2 1: hypotheses of l2_one_nesting hold and the order is not the trivial one *)
@@ -107,4 +118,9 @@ Example truncator_example :
   let line := [mkRun 0 0 20 0 2 [mkGlyph 6 6 10 0; mkGlyph 6 6 10 0]; mkRun 1 0 17 2 2 [mkGlyph 6 6 10 0; mkGlyph 0 0 7 0]] in
   let r := post_process_line w line false in
   map r_vis (pp_line r) = [0; 1; 2] /\ map r_adv (pp_line r) = [20; 10; 0] /\ pp_truncated r = 6 /\ pp_done r = true.
+Proof. vm_compute. repeat split; reflexivity. Qed.
+(* the two lines behind l2_needs_levels: same directions, different L2 orders *)
+Example l2_needs_levels_example :
+  map Nat.odd [0; 1; 2; 1; 0]%nat = map Nat.odd [0; 1; 0; 1; 0]%nat
+  /\ follows_l2 [0; 1; 2; 1; 0]%nat [0; 3; 2; 1; 4] = true /\ follows_l2 [0; 1; 0; 1; 0]%nat [0; 1; 2; 3; 4] = true.
 Proof. vm_compute. repeat split; reflexivity. Qed.
